@@ -22,3 +22,4 @@ import Aqv.Lemmas.Translated.Rpc
 import Aqv.Lemmas.Translated.Tx
 import Aqv.Lemmas.Translated.TxSign
 import Aqv.Lemmas.Translated.Params
+import Aqv.Lemmas.Translated.Consensus
